@@ -58,6 +58,7 @@ class Env:
         self.checked_labels = 0
         self.bad_labels = {}
         self.bounds = {}
+        self.full_pin_tries = 30
         self.max_bad_per_label = 3
         self._declared = set()             # inputs whose bounds are already in CTX.pre (persist over paths)
 
@@ -202,6 +203,15 @@ class Env:
         ok = bool(np.all(np.asarray(cond)))
         if not ok:
             raise OutsidePre(note or 'assumption violated')
+
+    def assume_divisors_nonzero(self, note):
+        """from here on every symbolic divisor met on this path is assumed non-zero (explicit assumption,
+        listed in the evidence); concretely: a zero divisor shows up as inf/nan and fails isfinite/eq"""
+        if note not in self.assumptions:
+            self.assumptions.append(note)
+        if self.sym:
+            from .core import CTX
+            CTX.assume_defined = True
 
     def assume_path(self, cond, note=None):
         """assumption on intermediate values of this path (not a global precondition)"""
@@ -459,8 +469,9 @@ class Env:
         if not scal:
             return 'unknown', None
         rng = np.random.RandomState(1234 + len(self.obls))
-        for t in range(tries):
-            frac = (0.5, 0.75, 0.9)[t % 3]
+        full = self.full_pin_tries
+        for t in range(tries + full):
+            frac = (0.5, 0.75, 0.9)[t % 3] if t < tries else 1.1
             pins = []
             for (v, lo, hi, integer) in scal:
                 if rng.uniform() < frac:
@@ -472,7 +483,7 @@ class Env:
                     if val < Fraction(lo).limit_denominator(10**9) or val > Fraction(hi).limit_denominator(10**9):
                         val = Fraction(lo + hi).limit_denominator(64) / 2
                     pins.append(v == z3.RealVal(str(val)))
-            r, m = core.solve(neg, extra=list(ax) + pins, timeout_ms=3000, use_cone=False)
+            r, m = core.solve(neg, extra=list(ax) + pins, timeout_ms=3000 if t < tries else 1500, use_cone=False)
             if r == 'sat':
                 return r, m
         return 'unknown', None
